@@ -219,6 +219,10 @@ class Reporter:
         for f in self.known:
             if f["id"] in self.known_hit:
                 print("KNOWN-FINDING: property=%s %s (%s)" % (self.pid, f["what"], f["id"]))
+            else:
+                # listed for this property but not exercised by this tier / seed: still announced, so that every listed
+                # finding appears on every run of the property's check
+                print("KNOWN-FINDING: property=%s %s (%s; not reproduced in this run, see known_findings.json for its replay)" % (self.pid, f["what"], f["id"]))
         sys.stdout.flush()
         return self.exit
 
